@@ -12,11 +12,15 @@ CLAIMED = {
              "written from the publications and validated against RFC 1321 A.5, SMHasher verification values, FNV "
              "vectors and Python references. Model tied to the code by a differential correspondence run: every "
              "length 1-600 x alignment offsets 0-7 x 5 content classes in exactly sized ASan blocks, chunked "
-             "MD5 contexts compared field by field, file ranges with short reads.",
+             "MD5 contexts compared field by field, file ranges with short reads; MD5Update's bit-count "
+             "bookkeeping (statements extracted by K-gen, theorem md5_count_update) compared with the C context at "
+             "lengths up to 2^32-64 without data; single-call inputs of 2^29-1 .. 2^32-64 bytes (MD5) and up to "
+             "2^31-1 bytes (murmur, FNV) checked implementation-vs-oracle in exactly sized buffers.",
         note="trusted: Lean kernel, translator/md5steps.py (gcc -E + regex; macro texts fingerprinted), the hand "
              "transcription of the loops (validated only on explored inputs), gcc/ASan/UBSan; little-endian x86-64; "
-             "width preconditions nbytes + 64 <= 2^32 (MD5: unsigned int inputLen) and nbytes < 2^33 / 2^35 "
-             "(murmur: int nblocks); alignment independence is by the model's type and sampled by the harness.",
+             "width preconditions nbytes + 64 <= 2^32 (MD5: unsigned int inputLen) and nbytes < 2^31 "
+             "(murmur: int block arithmetic); huge-input oracle for murmur/FNV is checks/hashref.c (from the "
+             "publications, cross-checked against the Python references on every run); alignment independence is by the model's type and sampled by the harness.",
         technique="Lean 4 proof (induction over byte lists/chunk lists/fuel, bv_omega for shift-add = multiply, "
                   "decide +kernel over the regenerated step table) + K-gen constants + differential correspondence",
         design="7/C18"),
